@@ -1,6 +1,7 @@
 import Robsd.Model.StepFile
 import Robsd.Model.Interp
 import Robsd.Model.RegressLog
+import Robsd.Model.Conf
 /-
   C12 (partial): no input crashes, corrupts memory in or hangs the parsers.
 
@@ -84,6 +85,97 @@ theorem rlog_reject_no_stdout (sel : RegressLog.Sel) (p : Bool) (fs : List (Opti
 theorem interp_reject_no_stdout (lookup : Interp.Lookup) (ign : Bool) (tmpl : Bytes) (e : Interp.Err)
     (h : Interp.interpFile lookup ign tmpl = .error e) : Interp.cliStdout (Interp.interpFile lookup ign tmpl) = [] := by
   rw [h]; rfl
+
+/-! ### the configuration reader (`robsd-config`, and every helper's `-C`) -/
+
+/-- `robsd-config -`: exit 0 or 1, for every configuration file, template and environment -/
+theorem config_exit_documented (m : Conf.Mode) (env : Conf.Env) (file tmpl : Bytes) :
+    (Conf.configCmd m env file tmpl).1 = 0 ∨ (Conf.configCmd m env file tmpl).1 = 1 := by
+  unfold Conf.configCmd
+  split
+  · exact Or.inr rfl
+  · split
+    · exact Or.inr rfl
+    · exact Or.inl rfl
+
+/-- `robsd-config -`: a rejected configuration or template prints nothing -/
+theorem config_reject_no_stdout (m : Conf.Mode) (env : Conf.Env) (file tmpl : Bytes)
+    (h : (Conf.configCmd m env file tmpl).1 ≠ 0) : (Conf.configCmd m env file tmpl).2 = [] := by
+  unfold Conf.configCmd at h ⊢
+  cases h1 : Conf.parse m env file with
+  | none => rfl
+  | some s =>
+    rw [h1] at h
+    simp only at h ⊢
+    cases h2 : Conf.interpLines m env s (Bytes.lines tmpl) with
+    | none => rfl
+    | some out => rw [h2] at h; exact absurd rfl h
+
+theorem length_dropWhile_le {α} (p : α → Bool) (l : List α) : (l.dropWhile p).length ≤ l.length :=
+  (List.dropWhile_sublist p).length_le
+
+/-- The configuration lexer consumes at least one byte per token, comment or
+    stop: the fuel the model gives it (`length + 1`) is never what ends the
+    scan — more fuel changes nothing.  (The C loop reads one character per
+    `lexer_getc`; this is its termination argument.) -/
+theorem lex_fuel_adequate (m : Conf.Mode) :
+    ∀ (fuel : Nat) (inp : Bytes) (acc : List Conf.Tok) (err : Bool), inp.length < fuel →
+      Conf.lexFrom m fuel inp acc err = Conf.lexFrom m (fuel + 1) inp acc err := by
+  intro fuel
+  induction fuel with
+  | zero => intro inp acc err h; omega
+  | succ f ih =>
+    intro inp acc err h
+    have hd := length_dropWhile_le Conf.isSpace inp
+    rw [Conf.lexFrom, Conf.lexFrom]
+    split
+    · rfl
+    · rename_i c rest hcr
+      rw [hcr] at hd
+      simp only [List.length_cons] at hd
+      split
+      · rfl
+      · split
+        · apply ih
+          have := length_dropWhile_le (fun x => x != 10 && x != 0) rest
+          simp only [List.length_drop]
+          omega
+        · split
+          · rename_i hl
+            apply ih
+            have hw : Conf.isWord c = true := by simp [Conf.isWord, hl]
+            rw [List.dropWhile_cons_of_pos hw]
+            have := length_dropWhile_le Conf.isWord rest
+            omega
+          · split
+            · rename_i hdg
+              apply ih
+              rw [List.dropWhile_cons_of_pos hdg]
+              have := length_dropWhile_le Conf.isDigit rest
+              omega
+            · split
+              · split
+                · rfl
+                · rename_i q rest' hq
+                  split
+                  · rfl
+                  · apply ih
+                    have := length_dropWhile_le (fun x => x != 34 && x != 0) rest
+                    rw [hq] at this
+                    simp only [List.length_cons] at this
+                    omega
+              · apply ih
+                omega
+
+/-- hence the token list of a file does not depend on the fuel at all -/
+theorem lex_fuel_any (m : Conf.Mode) (inp : Bytes) (k : Nat) :
+    Conf.lexFrom m (inp.length + 1 + k) inp [] false = Conf.lex m inp := by
+  induction k with
+  | zero => rfl
+  | succ k ih =>
+    show Conf.lexFrom m ((inp.length + 1 + k) + 1) inp [] false = _
+    rw [← lex_fuel_adequate m (inp.length + 1 + k) inp [] false (by omega)]
+    exact ih
 
 end C12
 end Robsd
